@@ -145,6 +145,7 @@ pub fn decode_version(d: &mut D, p: &Profile, v: usize) -> Version {
         ee_after_off: d.pick(&[86400i64 * 7, 86400 * 2, 3600 * 4]),
         objs,
         fault,
+        omit_children: Vec::new(),
     }
 }
 
